@@ -60,9 +60,9 @@ func guardRangeObl(P *Program, R *Report, rule, construct, subjName string, subj
 
 func init() {
 	register("C01",
-		Rule{ID: "C01.j", Explain: "the randomized signature A is a unit: A is chosen by the prover and is a base of the verified relation, so it has to be invertible modulo N - with A = 0 (or N, 2N) the reconstructed commitment is 0 whatever the responses are, and a proof made up without a credential is accepted. reconstructZ returns a commitment only after a value that depends on A was inverted modulo N successfully (ModInverse result nil-tested) or after gcd(A, N) = 1 was tested.",
+		Rule{ID: "C01.j", Explain: "the randomized signature A is a unit: A is chosen by the prover and is a base of the verified relation, so it has to be invertible modulo N - with A = 0 (or N, 2N) the reconstructed commitment is 0 whatever the responses are, and a proof made up without a credential is accepted. ChallengeContribution (through reconstructZ) returns a contribution only after a value that depends on A was inverted modulo N successfully (ModInverse result nil-tested) or after gcd(A, N) = 1 was tested.",
 			Run: func(P *Program, R *Report) {
-				fn := mustFunc(P, R, "C01.j", "gabi.(*ProofD).reconstructZ")
+				fn := mustFunc(P, R, "C01.j", kProofDCC)
 				if fn == nil {
 					return
 				}
@@ -74,9 +74,9 @@ func init() {
 					if c == nil || bigMethod(c) != "ModInverse" || len(callArgs(c)) < 3 || desc(callArgs(c)[2]) != pkD+".N" {
 						return false
 					}
-					return descSet(deps(P, callArgs(c)[1]))["<gabi.ProofD>.A"]
+					return descSet(depsIP(P, []ssa.Value{callArgs(c)[1]}, 3))["<gabi.ProofD>.A"]
 				}
-				mp(P, R, "C01.j", "gabi.(*ProofD).reconstructZ:A-invertible", "a commitment is returned => A was shown to be invertible modulo N", fn, AcceptNilErr(1),
+				mp(P, R, "C01.j", kProofDCC+":A-invertible", "a contribution is returned => A was shown to be invertible modulo N", fn, AcceptNilErr(1),
 					&MustPass{Match: anyOf(inv, invertibleMatcher(P, is("<gabi.ProofD>.A"), pkD+".N"))})
 			}},
 		Rule{ID: "C01.i", Explain: "the derived lengths are the specified ones: MakeDerivedParameters computes every derived system parameter as the linear combination of the base parameters that the Idemix specification gives (Le = Lstatzk+Lh+Lm+5, LeCommit = LePrime+Lstatzk+Lh, LmCommit = Lm+Lstatzk+Lh, LsCommit = LmCommit+1, Lv = Ln+2*Lstatzk+Lh+Lm+4, LvCommit = Lv+Lstatzk+Lh, LRA = LvPrime = Ln+Lstatzk, LvPrimeCommit = Ln+2*Lstatzk+Lh), compared as normalised affine forms (how the sum is written does not matter). Prover randomizers and the verifier's response bounds both read these values, so a wrong one keeps honest flows working while widening what the verifier accepts (an e-response bound derived from Le instead of LePrime admits the trivial signature e = 1).",
@@ -419,6 +419,7 @@ func derivedParametersRule(P *Program, R *Report, rule string) {
 		"LvPrime": "Ln + Lstatzk", "LvPrimeCommit": "Lh + Ln + 2*Lstatzk",
 	}
 	got := map[string]string{}
+	forms := map[string]Affine{}
 	allInstrs(fn, func(i ssa.Instruction) {
 		st, ok := i.(*ssa.Store)
 		if !ok {
@@ -441,8 +442,25 @@ func derivedParametersRule(P *Program, R *Report, rule string) {
 			}
 			b.S[k] += v
 		}
-		got[faName(fa)] = b.String()
+		forms[faName(fa)] = b
 	})
+	// a derived length computed from another derived length (LvCommit = Lv + ...): substitute
+	for round := 0; round < 3; round++ {
+		for f, a := range forms {
+			b := Affine{C: a.C, S: map[string]int64{}}
+			for k, v := range a.S {
+				if sub, isDerived := forms[k]; isDerived && k != f && want[k] != "" {
+					b = b.add(sub.scale(v))
+				} else {
+					b.S[k] += v
+				}
+			}
+			forms[f] = b
+		}
+	}
+	for f, a := range forms {
+		got[f] = a.String()
+	}
 	for f, w := range want {
 		R.decide(rule, "gabikeys.MakeDerivedParameters:"+f, f+" = "+w, got[f] == strings.ReplaceAll(w, " ", ""), "computed: "+got[f], P.Pos(fn.Pos()))
 	}
